@@ -210,29 +210,38 @@ theorem packFinish_eq (e : Handle) (isCreate : Bool) (initial : Mask) (sh : Shar
     (cbs : List Cb) :
     packFinish info e isCreate initial sh (w, p, cbs) =
       if p.dead then (w, cbs) else
-        packLoops info e isCreate initial p (w.getArch p.final sh).2 (packMoved info e isCreate initial sh w p).1
-          (packMoved info e isCreate initial sh w p).2 cbs := by
-  unfold packFinish packLoops packMoved packStale packF2 packF3
+        packLoops info e isCreate initial p (packTarget e isCreate initial sh w p).2
+          (packMoved info e isCreate initial sh w p).1 (packMoved info e isCreate initial sh w p).2 cbs := by
+  unfold packFinish packLoops packMoved packStale packF2 packF3 packTarget
   simp only
+
+theorem setCtl_packTarget (e : Handle) (isCreate : Bool) (initial : Mask) (sh : Shared) (w : WM) (p : PackSt) :
+    packTarget e isCreate initial sh (setCtl w d b mk) p =
+      (setCtl (packTarget e isCreate initial sh w p).1 d b mk, (packTarget e isCreate initial sh w p).2) := by
+  unfold packTarget
+  simp only [setCtl_locOf]
+  split
+  · rfl
+  · exact setCtl_getArch ..
 
 theorem setCtl_packMoved (e : Handle) (isCreate : Bool) (initial : Mask) (sh : Shared) (w : WM) (p : PackSt) :
     packMoved info e isCreate initial sh (setCtl w d b mk) p =
       (setCtl (packMoved info e isCreate initial sh w p).1 d b mk, (packMoved info e isCreate initial sh w p).2) := by
   unfold packMoved
-  simp only [setCtl_getArch, setCtl_locOf]
+  simp only [setCtl_packTarget, setCtl_locOf]
+  generalize packTarget e isCreate initial sh w p = g
   cases isCreate with
   | true => simp only [if_true, setCtl_archInsert]
   | false =>
     simp only [Bool.false_eq_true, if_false]
-    cases ((w.getArch p.final sh).1.locOf e).arch with
+    cases (g.1.locOf e).arch with
     | none => rfl
     | some pi =>
       simp only
-      by_cases hc : (pi = (w.getArch p.final sh).2 || initial == p.final) = true
+      by_cases hc : (pi = g.2 || initial == p.final) = true
       · simp only [hc, if_true]
       · simp only [hc, if_false, setCtl_externalMove]
-        cases (w.getArch p.final sh).1.externalMove info (w.getArch p.final sh).2 e pi
-          ((w.getArch p.final sh).1.locOf e).idx (Mask.ofList (p.src.map (·.1))) <;> rfl
+        cases g.1.externalMove info g.2 e pi (g.1.locOf e).idx (Mask.ofList (p.src.map (·.1))) <;> rfl
 
 theorem setCtl_packLoops (e : Handle) (isCreate : Bool) (initial : Mask) (p : PackSt) (ti : Nat) (W1 : WM)
     (cbs1 cbs : List Cb) :
@@ -265,7 +274,7 @@ theorem setCtl_packFinish (e : Handle) (isCreate : Bool) (initial : Mask) (sh : 
   rw [packFinish_eq, packFinish_eq]
   by_cases hd : p.dead = true
   · simp only [hd, if_true]
-  · simp only [hd, Bool.false_eq_true, if_false, setCtl_getArch, setCtl_packMoved, setCtl_packLoops]
+  · simp only [hd, Bool.false_eq_true, if_false, setCtl_packTarget, setCtl_packMoved, setCtl_packLoops]
 
 theorem packFinish_marked (e : Handle) (isCreate : Bool) (initial : Mask) (sh : Shared) (st : WM × PackSt × List Cb) :
     (packFinish info e isCreate initial sh st).1.marked = st.1.marked :=
